@@ -2,6 +2,6 @@
    N, positive, nat, Z, ascii, string stay the extracted inductives). *)
 From Coq Require Extraction.
 From Coq Require Import ExtrOcamlBasic.
-From Isomdl Require Import Lib.Bytes Lib.Cbor Api.Dispatch Api.ReaderAuth.
-Definition dispatch (input : bytes) : bytes := dispatch_with [api_reader_auth] input.
+From Isomdl Require Import Lib.Bytes Lib.Cbor Api.Dispatch Api.Loose Api.ReaderAuth.
+Definition dispatch (input : bytes) : bytes := dispatch_with [api_reader_auth; api_loose] input.
 Extraction "model_C05.ml" dispatch.
